@@ -321,7 +321,7 @@ fn account(o: &mut WorkerOut, i: u64, sc: Scenario, spec: SchedSpec, r: RunResul
         if r.hist.iter().any(|e| matches!(e, Ev::SendFailed(_))) && sc.mode != Mode::Disconnected { bump("send_after_collector_gone"); }
     }
     if let Some(out) = &r.out {
-        let sent_cwes = sc.producers.iter().flatten().chain(sc.main_msgs.iter()).filter(|m| matches!(m.kind, scenario::Kind::Cwe(..))).count();
+        let sent_cwes = sc.producers.iter().flatten().chain(sc.main_msgs.iter()).filter(|m| matches!(m.kind, scenario::Kind::Cwe(..) | scenario::Kind::CweNoAddr)).count();
         if sent_cwes > out.cwes.len() && sc.mode != Mode::CustomCollector && sc.mode != Mode::Disconnected { bump("dedup_collision"); }
     }
     match r.verdict {
